@@ -27,6 +27,7 @@ void operator delete(void* p, size_t) noexcept { free(p); }
 void operator delete[](void* p, size_t) noexcept { free(p); }
 
 static int WATCHDOG_S = 10;
+static int PACE_US = 0;
 static std::string TMPD = "/var/tmp";
 static int hexv(char c) { if (c >= '0' && c <= '9') return c - '0'; if (c >= 'a' && c <= 'f') return c - 'a' + 10; if (c >= 'A' && c <= 'F') return c - 'A' + 10; return -1; }
 static std::vector<uint8_t> unhex(const std::string& s) { std::vector<uint8_t> o; if (s == "-") return o; for (size_t i = 0; i + 1 < s.size(); i += 2) o.push_back(uint8_t(hexv(s[i]) * 16 + hexv(s[i + 1]))); return o; }
@@ -56,6 +57,7 @@ static std::string do_readfile(std::istringstream& is) {
         if (!f.is_open()) { unlink(path.c_str()); return "readfile outcome=notopen"; }
         std::string objs; size_t n = 0;
         while (true) {
+            if (PACE_US > 0 && (n % 3) == 1) usleep(useconds_t(PACE_US));   // consumer pacing (native stress runs)
             ObjectHeaderBase* o = f.read();
             if (!o) break;
             std::string cn = class_of(o); const ClassReflect* c = find_class(cn);
@@ -98,6 +100,7 @@ static std::string do_writefile(std::istringstream& is) {
         if (!c) { while (i < toks.size() && toks[i] != ";;") i++; continue; }
         ObjectHeaderBase* o = c->make();
         for (; i < toks.size() && toks[i] != ";;"; i++) { size_t e = toks[i].find('='); if (e == std::string::npos) continue; std::vector<uint8_t> b = unhex(toks[i].substr(e + 1)); c->set(o, atoi(toks[i].substr(0, e).c_str()), b.data(), b.size()); }
+        if (PACE_US > 0 && (i % 5) == 2) usleep(useconds_t(PACE_US));   // producer pacing
         f.write(o);
     }
     f.close();
@@ -117,6 +120,7 @@ int main() {
     if (const char* e = getenv("VERIF_CAP")) CAP = size_t(strtoull(e, nullptr, 10));
     if (const char* e = getenv("VERIF_WATCHDOG_S")) WATCHDOG_S = atoi(e);
     if (const char* e = getenv("VERIF_TMPD")) TMPD = e;
+    if (const char* e = getenv("VERIF_PACE_US")) PACE_US = atoi(e);
     std::ios::sync_with_stdio(false);
     std::string line;
     while (std::getline(std::cin, line)) {
